@@ -148,6 +148,12 @@ func (s *State) backEdge(b *ssa.BasicBlock, n int) {
 		s.oblige(fmt.Sprintf("inv-preserve:L%d", n), nil, k+1, v.S, inv.Src, true)
 	}
 	c.paths++
+	for k, be := range c.con.BackEdges[n] {
+		x := s.invCtx()
+		v := x.eval(be.Expr)
+		c.specErrors(x, be.Where)
+		s.oblige(fmt.Sprintf("backedge:L%d", n), nil, k+1, v.S, be.Src, true)
+	}
 	if d, ok := c.con.LoopDec[n]; ok {
 		x := s.invCtx()
 		v := x.eval(d.Expr)
@@ -1240,6 +1246,16 @@ func (s *State) callSiteAsserts(site ssa.Instruction, key string, callee *ssa.Fu
 	var names []string
 	for _, p := range callee.Params {
 		names = append(names, p.Name())
+	}
+	if len(names) == 0 {
+		// external function: parameter names come from its signature
+		sig := callee.Signature
+		if r := sig.Recv(); r != nil {
+			names = append(names, r.Name())
+		}
+		for i := 0; i < sig.Params().Len(); i++ {
+			names = append(names, sig.Params().At(i).Name())
+		}
 	}
 	s.callSiteAssertsNamed(site, key, names, args)
 }
